@@ -1,6 +1,6 @@
 SPECIFICATION ISpec
 CONSTANTS
-  Alphabet = {"a", ".", "u"}
+  Alphabet = {"a", ".", "u", "p"}
   MaxDepthI = 4
   MaxCompI = 2
   BufSizes = {1, 2, 4, 8, 16}
